@@ -3,7 +3,7 @@
    Proofs/SamplerP.v.  bin/check recompiles this file on every run and reads
    the Print Assumptions output. *)
 From Verif Require Import Base.Prelude Misc.Level Lts.Sampler Proofs.SamplerP.
-From Verif Require Base.GoSem Enc.JsonEnc Enc.GoStd Gen.SamplerSrc Proofs.SrcSamplerP.
+From Verif Require Base.GoSem Base.GoEff Base.GoExt Enc.JsonEnc Enc.GoStd Gen.SamplerSrc Proofs.SrcSamplerP.
 Open Scope N_scope.
 
 (* BasicSampler{N}, N >= 2, fresh counter: for every history of k < 2^32 calls
@@ -113,27 +113,52 @@ Example C13_ex_concurrent :
   let s := brun 2 [2;1]%nat [0;1;0]%nat in total (b_todo s) = 0%nat /\ b_log s = [(0%nat,true);(1%nat,false);(0%nat,true)].
 Proof. vm_compute. auto. Qed.
 
-(* ---- the source: sampler.go's BasicSampler.Sample and BurstSampler.inc, re-translated on every run by srcgen
-   (Gen/SamplerSrc.v: the receiver struct is the record of its scalar fields, returned updated; sync/atomic operations on a
-   field are a read / modify / write of that field; TimestampFunc() is the oracle parameter clk), are the model's
-   [basic_sample] and [burst_inc] for every field value, counter and clock reading.  BurstSampler.Sample, LevelSampler.Sample
-   (interface-typed fields) and RandomSampler.Sample (math/rand) are not translated. ---- *)
+(* ---- the source: sampler.go's BasicSampler.Sample, BurstSampler.inc, BurstSampler.Sample and LevelSampler.Sample,
+   re-translated on every run by srcgen (Gen/SamplerSrc.v: the receiver struct is the record of its scalar fields,
+   returned updated; sync/atomic operations on a field are a read / modify / write of that field; TimestampFunc() is
+   the oracle parameter clk; NextSampler and the five per-level samplers are opaque - a non-nil flag, the call logged, the
+   verdict answered by the environment), are the model's [basic_sample], [burst_inc] and [sample] for every field
+   value, counter, clock reading, level and environment.  RandomSampler.Sample (math/rand) is not translated. ---- *)
 Theorem C13_source_basic_sample : forall n cnt lvl,
   SamplerSrc.BasicSampler_Sample {| SamplerSrc.BasicSampler_N := n; SamplerSrc.BasicSampler_counter := cnt |} lvl =
   GoSem.Ok (fst (basic_sample n cnt),
             {| SamplerSrc.BasicSampler_N := n; SamplerSrc.BasicSampler_counter := snd (basic_sample n cnt) |}).
 Proof. exact SrcSamplerP.BasicSampler_Sample_src. Qed.
 
-Theorem C13_source_burst_inc : forall clk burst period cnt resetAt,
-  SamplerSrc.inc clk {| SamplerSrc.BurstSampler_Burst := burst; SamplerSrc.BurstSampler_Period := period;
-                        SamplerSrc.BurstSampler_counter := cnt; SamplerSrc.BurstSampler_resetAt := resetAt |} =
+Theorem C13_source_burst_inc : forall clk burst period hasnext cnt resetAt calls,
+  SamplerSrc.inc clk (SrcSamplerP.burst_rec burst period hasnext cnt resetAt calls) =
   GoSem.Ok (let '(c, cnt', resetAt') := burst_inc period cnt resetAt (JsonEnc.t_unixnano clk) in
-            (c, {| SamplerSrc.BurstSampler_Burst := burst; SamplerSrc.BurstSampler_Period := period;
-                   SamplerSrc.BurstSampler_counter := cnt'; SamplerSrc.BurstSampler_resetAt := resetAt' |})).
+            (c, SrcSamplerP.burst_rec burst period hasnext cnt' resetAt' calls)).
 Proof. exact SrcSamplerP.BurstSampler_inc_src. Qed.
 
+(* BurstSampler.Sample: the model's decision, the model's new counter and window end; the next sampler is asked at most
+   once and only outside the burst *)
+Theorem C13_source_burst_sample : forall (ans : nat -> GoExt.oval) clk burst period next cnt resetAt calls lvl,
+  (forall nx, next = Some nx -> ans (length calls) = GoExt.OVBool (fst (sample nx (JsonEnc.t_unixnano clk) lvl))) ->
+  let hasnext := match next with Some _ => true | None => false end in
+  exists cnt' resetAt' calls',
+    SamplerSrc.BurstSampler_Sample ans clk (SrcSamplerP.burst_rec burst period hasnext cnt resetAt calls) lvl =
+      GoSem.Ok (fst (sample (SBurst burst period next cnt resetAt) (JsonEnc.t_unixnano clk) lvl),
+                SrcSamplerP.burst_rec burst period hasnext cnt' resetAt' calls') /\
+    (match snd (sample (SBurst burst period next cnt resetAt) (JsonEnc.t_unixnano clk) lvl) with
+     | SBurst _ _ _ c r => c = cnt' /\ r = resetAt' | _ => False end) /\
+    (calls' = calls \/ calls' = calls ++ [SrcSamplerP.next_call lvl]).
+Proof. exact SrcSamplerP.BurstSampler_Sample_src. Qed.
+
+(* LevelSampler.Sample, for ALL levels (not only the five named ones): the configured sampler of the event's level
+   decides, every other level is admitted *)
+Theorem C13_source_level_sample : forall (ans : nat -> GoExt.oval) now t d i w e calls lvl,
+  (forall x, (lvl = TraceLevel /\ t = Some x) \/ (lvl = DebugLevel /\ d = Some x) \/ (lvl = InfoLevel /\ i = Some x) \/
+             (lvl = WarnLevel /\ w = Some x) \/ (lvl = ErrorLevel /\ e = Some x) ->
+             ans (length calls) = GoExt.OVBool (fst (sample x now lvl))) ->
+  exists calls', SamplerSrc.LevelSampler_Sample ans
+      (SrcSamplerP.level_rec (SrcSamplerP.is_some t) (SrcSamplerP.is_some d) (SrcSamplerP.is_some i) (SrcSamplerP.is_some w) (SrcSamplerP.is_some e) calls) lvl =
+    GoSem.Ok (fst (sample (SLevel t d i w e) now lvl),
+      SrcSamplerP.level_rec (SrcSamplerP.is_some t) (SrcSamplerP.is_some d) (SrcSamplerP.is_some i) (SrcSamplerP.is_some w) (SrcSamplerP.is_some e) calls').
+Proof. exact SrcSamplerP.LevelSampler_Sample_src. Qed.
+
 Theorem C13_source_translated_set :
-  length SamplerSrc.translated_functions = 2%nat /\ length SamplerSrc.skipped_functions = 3%nat.
+  length SamplerSrc.translated_functions = 4%nat /\ length SamplerSrc.skipped_functions = 1%nat.
 Proof. exact SrcSamplerP.sampler_counts. Qed.
 
 Print Assumptions C13_basic_exact.
@@ -150,4 +175,6 @@ Print Assumptions C13_gate_before_sampler.
 Print Assumptions C13_disable_sampling.
 Print Assumptions C13_source_basic_sample.
 Print Assumptions C13_source_burst_inc.
+Print Assumptions C13_source_burst_sample.
+Print Assumptions C13_source_level_sample.
 Print Assumptions C13_source_translated_set.
